@@ -102,6 +102,8 @@ pub const CUBE_PATTERNS: &[&str] = &[
 pub const CUBE_OPTIONS: &[&str] = &[
     "", "script", "~script", "image,script", "document", "3p", "1p", "domain=example.com", "domain=~example.com", "domain=example.com|ads.net", "important", "tag=t1", "match-case",
     "xhr,3p", "redirect=a", "csp=d1", "removeparam=utm", "websocket", "~websocket,~image",
+    // two category-deciding options on one rule (the category dispatch must take the modifier)
+    "csp=d1,important", "removeparam=utm,important", "redirect=a,important", "redirect-rule=b", "important,tag=t1", "csp=d2,tag=t1",
 ];
 
 /// The rule text for one cell of the cube, or None for cells that make no sense (an empty pattern
@@ -111,7 +113,7 @@ pub fn cube_rule(p: usize, o: usize, exception: bool) -> Option<String> {
     if pat.is_empty() && opt.is_empty() {
         return None;
     }
-    if exception && (opt == "important" || opt.starts_with("removeparam")) {
+    if exception && (opt.contains("important") || opt.starts_with("removeparam")) {
         return None;
     }
     Some(format!("{}{}{}{}", if exception { "@@" } else { "" }, pat, if opt.is_empty() { "" } else { "$" }, opt))
